@@ -32,6 +32,16 @@ KEY = 8 + KEYB                      # bytes of one key triplet [4][key][4]
 def _walk(ctx, rel, cls, q, tag="", **kw):
     """walk a function once per (function, tag); a construct the walker cannot lower is an analysis error of the calling rule"""
     cache = ctx.__dict__.setdefault("_c11_walks", {})
+    if not _SIZES and not getattr(ctx, "_c11_sizes_done", False):
+        ctx._c11_sizes_done = True
+        try:
+            tbs = T.tables(ctx)
+            for what in ("op2", "op4"):
+                for nm, v in tbs[what][32].items():
+                    if _rat(v) and v.is_const():
+                        _SIZES.add(nm)
+        except (Stuck, Unsupported):
+            pass
     k = (q, tag)
     if k not in cache:
         fn = ctx.src.func(rel, q)
@@ -739,6 +749,12 @@ def r3_sibling_decoders(ctx):
                 continue
             P, dec, positive = _tested_counter(lp)
             puts = _stores_in(w, lp)
+            if P is None and _rat(lp.test) and not _lv_in(lp.test, lp.frame) and not any(
+                    d[0] == "fn" and d[1] in ("rd", "ln") and C._arg(d[2][0]).equals(lp.frame) for d in C.walk_atoms(lp.test)):
+                # a test nothing inside the loop can change: the loop reads no string at all or never stops
+                ctx.check(False, f"{reader}: strings are read exactly while words of the column remain (words left > 0)", lp.node,
+                          {"loop test": repr(C.norm(lp.test, whole_values=False))[:300], "why": "nothing the loop does changes its test"})
+                continue
             if P is None or len(puts) != 1:
                 ctx.error(f"{reader}: words-left counter / store call of the string loop", lp.node, {"counter": repr(P), "stores": len(puts)})
                 continue
@@ -949,10 +965,31 @@ def _decoders(items, binary_only=False):
     return out
 
 
+_SIZES = set()          # names of the attributes that hold a byte / word count of the detected format (filled from the format tables)
+
+
+def _position_like(v):
+    """an absolute seek target that may be a remembered position: anything that involves more than words decoded from the file, constants and
+    the sizes of the detected format (a `tell()`, a parameter, an attribute that is not a size)"""
+    if not _rat(v):
+        return True
+    for d in C.walk_atoms(C.norm(v, whole_values=False)):
+        if d[0] == "fn" and d[1] == "tell":
+            return True
+        if d[0] == "fn" and (d[1].startswith("attr:") or (d[1].startswith("call:") and d[1] not in ("call:int", "call:len"))):
+            return True
+        if d[0] == "s" and d[1] not in _SIZES and d[1] not in ("T", "S", "LOOP", "None", "True", "False") and not d[1].startswith("<loop") \
+                and d[1][:1] not in "'\"" and not d[1].startswith(("b'", 'b"', "unbound:")):
+            return True
+    return False
+
+
 def _unjudgeable(items):
     """why a consumption tree cannot be compared / measured: a loop with several exits that has no normal form, an absolute seek"""
     for it in items:
-        if it[0] == "abs":
+        if it[0] == "abs" and _position_like(it[1]):
+            # (a target made of nothing but words decoded from the file and constants is a position counted from the start of the file:
+            # that can be judged - it is not where a reader that works record by record has to go)
             return "an absolute seek"
         if it[0] == "if":
             r = _unjudgeable(it[2]) or _unjudgeable(it[3])
